@@ -3,7 +3,7 @@
 import json, os, glob, sys, shutil
 repo = os.environ.get('VERIF_REPO', '/repo')
 verif = os.path.dirname(os.path.abspath(__file__))
-build = os.path.join(verif, 'build')
+build = os.environ.get('VERIF_BUILD_DIR') or os.path.join(verif, 'build')
 os.makedirs(build, exist_ok=True)
 ov = {}
 for f in sorted(glob.glob(os.path.join(verif, 'sim', '*.go'))):
